@@ -449,6 +449,12 @@ func (c *Ctx) astFunc(pkgrel, name string) (*ast.FuncDecl, *packages.Package) {
 	if p == nil {
 		return nil, nil
 	}
+	// a renamed anchor (found by signature): take the declaration of the function it resolved to
+	if f, ok := c.renamed[pkgrel+"|"+strings.Replace(strings.TrimPrefix(name, "(*"), ").", ".", 1)]; ok {
+		if fd := c.funcDecl(f); fd != nil {
+			return fd, p
+		}
+	}
 	recv, meth := "", name
 	n := strings.TrimPrefix(name, "(*")
 	n = strings.Replace(n, ").", ".", 1)
